@@ -23,8 +23,10 @@ ISO = lambda: Obj(T4 + 'IsoDepInitiator', miu=Int(1, 253), pni=Int(0, 1), fwt=Co
                   clf=Obj('models.clf_models:BlockClf', _partial=False, sent=Fixed([]), outcomes=Fixed([]),
                           answers=Fixed([]), limit=Int(2, 254)))
 EQ = 'nfc.tag.tt4.IsoDepInitiator.exchange'
-contract(T4 + 'IsoDepInitiator.exchange', 'C12', dict(self=ISO(), command=Bytes(1, None, mutable=True), timeout=None),
-         name='C12/IsoDep.exchange', requires=['self.clf.limit == self.miu + 1'],
+# (also registered for C16: the ISO-DEP layer is where link errors become Type4TagCommandError)
+for _prop in ('C12', 'C16'):
+  contract(T4 + 'IsoDepInitiator.exchange', _prop, dict(self=ISO(), command=Bytes(1, None, mutable=True), timeout=None),
+         name='%s/IsoDep.exchange' % _prop, requires=['self.clf.limit == self.miu + 1'],
          ensures=[('O-bn', 'self.pni == 0 or self.pni == 1')],
          raises={T4E: ['self.pni == 0 or self.pni == 1']},
          loops={(EQ, 'For', 0): LoopSpec(invariant=['self.pni == 0 or self.pni == 1'],
